@@ -76,6 +76,32 @@ with SLF : list argdef -> list (name * value) -> list (name * jv) -> Prop :=
 | SLF_cons f fs m r rs : SL (a_type f) (alookup (a_name f) m) r -> SLF fs m rs ->
                          SLF (f :: fs) m ((a_name f, with_default (a_default f) r) :: rs).
 
+(* SLv vars t l r : the literal l, which may mention variables at any depth, coerces to r at type t
+   under the coerced variable values vars: a variable stands for its coerced value, used as it is
+   (its type was checked against the position by validation); everything else as SL *)
+Section WithVars.
+Variable vars : list (name * jv).
+Inductive SLv : tyref -> option value -> jv -> Prop :=
+| SLv_var t x : SLv t (Some (VVar x)) (jlookup x vars)
+| SLv_absent t : is_nonnull t = false -> SLv t None JNull
+| SLv_nonnull t l r : SLv t (Some l) r -> SLv (TNonNull t) (Some l) r
+| SLv_list t ls rs : SLvL t ls rs -> SLv (TList t) (Some (VList ls)) (JList rs)
+| SLv_list1 t l r : (forall ls, l <> VList ls) -> (forall x, l <> VVar x) -> SLv t (Some l) r -> SLv (TList t) (Some l) (JList [r])
+| SLv_scalar n k l r : lookup_type S n = Some (TScalar k) -> scalar_lit k l r -> SLv (TNamed n) (Some l) r
+| SLv_enum n vals nm iv : lookup_type S n = Some (TEnum vals) -> alookup nm vals = Some iv -> iv <> JNull ->
+                          SLv (TNamed n) (Some (VEnum nm)) iv
+| SLv_obj n fs lfs kvs : lookup_type S n = Some (TInputObject fs) ->
+                         forallb (fun kv => existsb (fun f => String.eqb (fst kv) (a_name f)) fs) lfs = true ->
+                         SLvF fs lfs kvs -> SLv (TNamed n) (Some (VObj lfs)) (JObj (keep_nonnull kvs))
+with SLvL : tyref -> list value -> list jv -> Prop :=
+| SLvL_nil t : SLvL t [] []
+| SLvL_cons t x y xs ys : SLv t (Some x) y -> SLvL t xs ys -> SLvL t (x :: xs) (y :: ys)
+with SLvF : list argdef -> list (name * value) -> list (name * jv) -> Prop :=
+| SLvF_nil m : SLvF [] m []
+| SLvF_cons f fs m r rs : SLv (a_type f) (alookup (a_name f) m) r -> SLvF fs m rs ->
+                          SLvF (f :: fs) m ((a_name f, with_default (a_default f) r) :: rs).
+End WithVars.
+
 (* ---- the non-conformant values C05 lists ---- *)
 Inductive NC : tyref -> jv -> Prop :=
 | NC_null t : NC (TNonNull t) JNull                                            (* null / absent for a non-null type *)
@@ -100,6 +126,11 @@ Scheme SC_ind' := Minimality for SC Sort Prop
   with SCL_ind' := Minimality for SCL Sort Prop
   with SCF_ind' := Minimality for SCF Sort Prop.
 Combined Scheme SC_mutind from SC_ind', SCL_ind', SCF_ind'.
+
+Scheme SLv_ind' := Minimality for SLv Sort Prop
+  with SLvL_ind' := Minimality for SLvL Sort Prop
+  with SLvF_ind' := Minimality for SLvF Sort Prop.
+Combined Scheme SLv_mutind from SLv_ind', SLvL_ind', SLvF_ind'.
 
 Scheme SL_ind' := Minimality for SL Sort Prop
   with SLL_ind' := Minimality for SLL Sort Prop
